@@ -11,12 +11,25 @@ open Afkak.ClientNet Afkak.ClientCache
     coordinator requests on the coordinator, connected brokers first, no broker tried twice; for well-formed
     runs (fresh operation ids, no `badOp`, no fuel exhaustion).  The rules about the fall-back to the bootstrap
     hosts are idle on these traces (no `battr`/`uop` items): see `C07_unaware_unavailable_only_after_all`.
-    Evaluated (not proved) on the model trace of every scenario the harness generates (`mon-c07-model`). -/
+    Evaluated (not proved) on the model trace of every scenario the harness generates (`mon-c07-model`).
+    Proved pieces (session 4, AfkakProps/C07.lean): the requests and results of the coroutine are what the kernels
+    compute (`C07_coroutine_requests_and_results`: the content of rules c1/c2/c4/c5/c6), the address rule
+    (`C07_clients_follow_brokers`), "unavailable only after every bootstrap host" (`…_partial`).  What is missing for
+    the statement itself: rule c3 compares the leader a look-up read from the cache IN THE MIDDLE of a step with the
+    dumps at step ends - it needs a stack invariant "no action that runs after a look-up in the same step rewrites the
+    routing entry the look-up read" (true because the chains `reply -> merge -> look-up -> issue` are linear and a
+    `sendCheck` that runs after a synchronous `acks=0` completion has nothing to invalidate, but not a syntactic class
+    of actions) - and the broker-agnostic rules need the monitor's view of connected brokers (`conn`/`bcClose` items)
+    tied to `BcInst.conn`/`inClients` across steps. -/
 def C07_model_traces_satisfy_monitor : Prop :=
   ∀ (cfg : Cfg) (evs : List (Env × Ev)), WellFormedRun cfg evs → NoFuel cfg {} evs →
     Afkak.Monitor.C07.ok cfg (traceOfA cfg {} evs) = true
 
-/-- A metadata load fails with `unavailable` only after every bootstrap host has been tried - unless the
+/-- (FALSE as stated: `C07_unaware_unavailable_only_after_all_counterexample` - the model lets a broker client fail a
+    request with any failure kind and only Kafka errors continue the broker loop; true with the environment assumption
+    `benignFires`: `C07_unaware_unavailable_only_after_all_partial`, which also drops the well-formedness, fuel and
+    no-cancel hypotheses.)
+    A metadata load fails with `unavailable` only after every bootstrap host has been tried - unless the
     client was closed or the operation cancelled (then the failure is not the exhaustion of all servers).
     Stated on the model's coroutine, all well-formed event sequences. -/
 def C07_unaware_unavailable_only_after_all : Prop :=
